@@ -254,7 +254,7 @@ def _check_own(ctx) -> None:
                     continue
                 owner = it.rsplit(".", 1)[0]
                 n += 1
-                first = loop.body[0] if loop.body else None
+                first = next((st_ for st_ in loop.body if not isinstance(st_, (ast.Assert, ast.Pass)) and not (isinstance(st_, ast.Expr) and isinstance(st_.value, ast.Constant))), None)
                 ok = False
                 if isinstance(first, ast.If) and isinstance(first.test, ast.Compare) and isinstance(first.test.ops[0], ast.IsNot) \
                         and (dotted_of(first.test.left) or "").endswith(".specified_for") and dotted_of(first.test.comparators[0]) == owner \
